@@ -1315,6 +1315,18 @@ pub fn handle_trailer(
     if !end_stream {
         return Err((H2Error::ProtocolError, false));
     }
+    // A chunked H1 serialisation needs the last-chunk marker before the
+    // trailer section (RFC 9112 §7.1: `last-chunk trailer-section CRLF`); the
+    // DATA path only emits it together with END_STREAM, which a stream ending
+    // in trailers never carries on DATA. The H2 converter ignores this block.
+    if kawa.body_size == BodySize::Chunked {
+        kawa.push_block(Block::Flags(Flags {
+            end_body: true,
+            end_chunk: false,
+            end_header: false,
+            end_stream: false,
+        }));
+    }
     let max_header_fields = max_header_fields as usize;
     let mut invalid_trailers = false;
     let mut budget_exceeded = false;
